@@ -1,7 +1,6 @@
 from collections import Counter
 from functools import reduce
 from itertools import islice
-from math import ceil
 from typing import Dict, Iterable, List, Sequence, Tuple, TypeVar
 
 T = TypeVar("T")
@@ -79,7 +78,9 @@ def split_into_batches(
 
 
 def _expand_sample_size(n_samples, max_sample_size):
-    multiplicities = ceil(n_samples / max_sample_size)
+    # Integer ceiling division: ceil(n_samples / max_sample_size) would go through a
+    # float and lose precision for very large sample counts.
+    multiplicities = -(-n_samples // max_sample_size)
     new_n_samples = (
         multiplicities * (max_sample_size,)
         if n_samples % max_sample_size == 0
